@@ -200,8 +200,9 @@ pub fn blockwatch(
         code,
         stdout: String::from_utf8_lossy(&output.stdout).to_string(),
         stderr: String::from_utf8_lossy(&output.stderr).to_string(),
-        // `timeout -s KILL` itself exits with 137 when it had to kill.
-        timed_out: code == Some(137),
+        // `timeout -s KILL` exits with 137 when it had to kill — or, as GNU timeout does, passes
+        // the signal on to itself, so that the status is "killed by signal 9".
+        timed_out: code == Some(137) || std::os::unix::process::ExitStatusExt::signal(&output.status) == Some(9),
     }
 }
 
